@@ -23,7 +23,23 @@ for mf in sorted(glob.glob(os.path.join(V, 'seeded', '*', 'meta.json'))):
                                          ('caught — ' if cm.get('caught') else 'NOT caught (exit %s) — ' % cm.get('check_exit')) + tail))
 rows.append('')
 rows.append('%d of %d confirmed seeded changes are caught by the quick tier.' % (c, n))
-blocks = {'findings': '\n'.join(f), 'seeded': '\n'.join(rows)}
+man = json.load(open(os.path.join(V, 'MANIFEST.json')))
+st = ['| property | level | obligations (theorems of Props/<ID>.v, all discharged) | quick-tier evaluations / distinct non-trivial | exhaustive scope | wall s |', '|---|---|---|---|---|---|']
+tot = 0
+for chk in man['checks']:
+    pid = chk['property_id']
+    try:
+        ev = json.load(open(os.path.join(V, 'evidence', pid + '.json')))
+        cv = ev['coverage']
+        st.append('| %s | %s | %s/%s | %s / %s | %s | %s |' % (pid, chk['level_claimed']['category'], cv.get('discharged'), cv.get('obligations'),
+                  cv.get('evaluations'), cv.get('distinct_nontrivial'), 'yes' if cv.get('exhaustive') else '-', int(ev.get('wall_s', 0))))
+        tot += cv.get('obligations') or 0
+    except Exception as e:
+        st.append('| %s | %s | (no evidence: %s) | | | |' % (pid, chk['level_claimed']['category'], e))
+st.append('')
+st.append('%d proof obligations in all; every one is closed under the global context except the corollaries over the reals, '
+          'which depend on the four standard-library axioms named in section 3.3.' % tot)
+blocks = {'findings': '\n'.join(f), 'seeded': '\n'.join(rows), 'status': '\n'.join(st)}
 p = os.path.join(V, 'DESIGN.md'); s = open(p).read()
 for name, text in blocks.items():
     b, e = '<!-- BEGIN %s -->' % name, '<!-- END %s -->' % name
